@@ -44,8 +44,8 @@ RULE = ('60 % single-mix cases, 40 % histories (3–6 further operations on ONE 
 ASSUMPTIONS = [
     'H(phase, n, T, P), S, Cn of the mixture object are parameters (thermo/chemicals correlations); their values are the '
     'ones the real run produced',
-    'solver hypothesis (monitored on every recorded call): the returned T satisfies |X(T) − target| ≤ rtol·|target| + 1e-5 K·dX/dT '
-    '(rtol 1e-6 for H, h and the entropy of gases; 2e-5 for S where liquid is involved because thermo\'s liquid HEOS_FIT entropy '
+    'solver hypothesis (monitored on every recorded call): the returned T satisfies |X(T) − target| ≤ rtol·|target| + 2e-6 K·dX/dT '
+    '(rtol 1e-9 for H, h and the entropy of gases; 2e-5 for S where liquid is involved because thermo\'s liquid HEOS_FIT entropy '
     'integral carries float noise of ≈1e-3 J/mol/K) '
     'and dX/dT > 0',
     'convergence of the Aitken / secant iteration inside flexsolve is monitored, not proved',
@@ -53,14 +53,15 @@ ASSUMPTIONS = [
     'step of a history) makes the following steps correspondence-only (dom=0, tag start-out-of-domain); a solver answer outside '
     'that range is a hypothesis violation (hyp=range) that both sides report, and the step is failed by the oracle '
     '(set:readback / set:left-domain, or the known signature where the entropy model is not monotone)',
-    'H_strictMono / S_strictMono hypothesis (monitored where the setter raised on a reachable target): the real property function '
-    'is strictly increasing over 17 points spaced 2e-6 K around the solution; where it is not (thermo liquid entropy noise) the '
-    'failure is reported under the signature set:raised:S:model-not-monotone',
+    'H_strictMono / S_strictMono hypothesis (monitored where an entropy assignment failed on a reachable target): the real '
+    'property function is strictly increasing over 17 points spaced 2e-6 K around the solution.  The known signature '
+    'set:raised:S:model-not-monotone is given only when it is not AND the library\'s own setter, re-run on a copy of the stream with '
+    'Mixture.S replaced by a smooth fit of itself, succeeds (so the noise, not the solver or the setter, is the cause)',
     'material side of mixing (which flows end up where) is C01\'s concern; only emptiness and phase labels are used here',
     'the vapour-liquid equilibrium called by mix_from(vle=True) is a parameter (C03 / C04 own it): its answer (T, phases holding '
     'material) is recorded; hypothesis VleSound: an H,P flash that returns reproduces H (checked by the mix:energy oracle)',
 ]
-TRUSTED = ['Lean 4.33 kernel', 'harness/props/c02.py + Driver/C02.lean (parsing, tolerances: rtol 1e-6 on H, 1e-6 K on T)',
+TRUSTED = ['Lean 4.33 kernel', 'harness/props/c02.py + Driver/C02.lean (parsing, tolerances: rtol 1e-9 + 2e-6 K·slope on H, 1e-6 K on T)',
            'generator reach (see histogram)']
 
 tmo = None
@@ -161,7 +162,7 @@ def setup():
 
 
 def budget(tier):
-    return {'quick': dict(seconds=60, cases=6000, shrink_s=15, search_s=5),
+    return {'quick': dict(seconds=80, cases=4800, shrink_s=15, search_s=5),
             'thorough': dict(seconds=420, cases=120000, shrink_s=40, search_s=20)}[tier]
 
 
@@ -226,6 +227,50 @@ def micro_monotone(s, kind, x, phase):
 _TSTAR = [None]      # the solution temperature located by the last micro_monotone call
 
 
+def noise_is_cause(s, T0, ph0, Tstar):
+    """Is the documented defect (the liquid entropy model's float noise) what made this entropy assignment fail?
+    Decided by an independent experiment on the REAL code: the same setter is run again on a copy of the stream in its
+    state before the assignment, with `Mixture.S` replaced for the duration by a smooth version of itself (a degree-7
+    least-squares polynomial through 33 samples of the real S over 230..520 K, per phase and composition), towards the
+    value that smooth function has at the solution temperature `Tstar` located by bisection.  If the library's own
+    solver now succeeds, the noise was the cause; if it fails on the smooth function too, something else is wrong with
+    the solver or the setter and the failure is NOT the known one.  Returns True / False, None when undecidable."""
+    import numpy as np
+    if Tstar is None: return None
+    cls = type(s.mixture)
+    orig = cls.S
+    fits = {}
+    lo, hi, mid, half = 230.0, 520.0, 375.0, 145.0
+
+    def key_of(phase, mol, P):
+        return (str(phase), tuple(sorted(mol.dct.items())) if hasattr(mol, 'dct') else tuple(float(v) for v in mol), float(P))
+
+    def smooth(self, phase, mol, T, P):
+        if not (lo <= T <= hi): return orig(self, phase, mol, T, P)
+        k = key_of(phase, mol, P)
+        if k not in fits:
+            Ts = np.linspace(lo, hi, 33)
+            ys = np.array([float(orig(self, phase, mol, float(t), P)) for t in Ts])
+            fits[k] = np.polynomial.polynomial.polyfit((Ts - mid) / half, ys, 7)
+        return float(np.polynomial.polynomial.polyval((T - mid) / half, fits[k]))
+
+    try:
+        c = s.copy()
+        if not is_multi(c) and ph0 and len(ph0) == 1: c.phase = ph0
+        cls.S = smooth
+        try:
+            c.T = Tstar
+            target = float(c.S)
+            c.T = T0
+            c.S = target
+            return bool(abs(c.T - Tstar) < 0.05 and ph_of(c) == ph0)
+        finally:
+            cls.S = orig
+    except BaseException:
+        cls.S = orig
+        return False if fits else None
+
+
 def sol_tokens(rec):
     if not rec: return '-'
     out = []
@@ -260,11 +305,12 @@ def last_call_unsound(rec, rtol):
     if not rec: return False
     r = rec[-1]
     if r[0] == 'ex': return True
-    allowance = 1e-5 * abs(r[4]) if indom(r[2]) and r[4] == r[4] else 0.0
+    allowance = ALLOW_K * abs(r[4]) if indom(r[2]) and r[4] == r[4] else 0.0
     return not (abs(r[3]) <= rtol * abs(r[5]) + allowance)
 
 
-RTOL = {'H': 1e-6, 'h': 1e-6, 'S': 2e-5, 'Sg': 1e-6}     # 'Sg': entropy of a stream that is and stays a gas
+ALLOW_K = 2e-6        # a read-back may be off by the solver's own T_tol (1e-6 K) times the slope dX/dT, doubled
+RTOL = {'H': 1e-9, 'h': 1e-9, 'S': 2e-5, 'Sg': 1e-9}     # 'Sg': entropy of a stream that is and stays a gas
 
 
 def answer(s, out, Hread, rec, tol, dom=True):
@@ -319,8 +365,17 @@ def run_ops(ops):
             # a new stream holding a share of stream a's material at a.T + dT (dT = 0.0: exactly a's temperature)
             a = objs[int(t[1])]
             fr = flows(t[2])
-            if is_multi(a) or not is_stream(a):
+            if not is_stream(a):
                 objs.append(tmo.Stream(None)); continue
+            if is_multi(a):
+                # a share of every phase of a multi-phase parent, over the same phase tuple
+                Pf = float(t[5]) if len(t) > 5 else 1.0
+                b = tmo.MultiStream(None, T=max(a.T + float(t[3]), 1.0), P=a.P * Pf, phases=tuple(a.phases))
+                for ph in a.phases:
+                    row = a.imol[ph]
+                    arr = row.to_array() if hasattr(row, 'to_array') else list(row)
+                    b.imol[ph] = [x * f for x, f in zip(arr, fr)]
+                objs.append(b); continue
             # optional: `other` = the opposite phase (a vapour bleed from a liquid, condensate from a gas); a pressure factor
             phase = a.phase
             if len(t) > 4 and t[4] == 'other' and phase in 'lg': phase = 'g' if phase == 'l' else 'l'
@@ -329,17 +384,37 @@ def run_ops(ops):
             arr = a.mol.to_array() if hasattr(a.mol, 'to_array') else list(a.mol)
             b.imol.data[:] = [x * f for x, f in zip(arr, fr)]
             objs.append(b)
-        elif op == 'mix':
-            recv = objs[int(t[1])]
-            idx = [int(x) for x in t[2].split(',')] if t[2] != '-' else []
-            ins = [objs[i] for i in idx]
-            if not is_stream(recv): continue
-            mode, qv, cp = t[3], float(t[4]), t[5] == '1'
-            flags = t[6] if len(t) > 6 else ''
+        elif op in ('mix', 'sum', 'add', 'iadd'):
+            # `mix r ins mode q cp [flags]` calls r.mix_from; the same energy path is reached through
+            #   `sum ins`   -> Stream.sum([...])  (a NEW stream with the thermal condition of the first one, then mix_from)
+            #   `add a b`   -> a + b               (Stream.sum([a, b]))
+            #   `iadd a b`  -> a += b              (a.mix_from([a, b]))
+            creates = op in ('sum', 'add')
+            if op == 'mix':
+                recv = objs[int(t[1])]
+                idx = [int(x) for x in t[2].split(',')] if t[2] != '-' else []
+                ins = [objs[i] for i in idx]
+                mode, qv, cp = t[3], float(t[4]), t[5] == '1'
+                flags = t[6] if len(t) > 6 else ''
+            else:
+                idx = [int(x) for x in (t[1].split(',') if op == 'sum' else t[1:3])]
+                ins = [objs[i] for i in idx]
+                mode, qv, cp, flags = 'abs', 0.0, False, ''
+                if op == 'iadd':
+                    recv = ins[0]
+                elif ins and is_stream(ins[0]):
+                    recv = tmo.Stream(None); recv.copy_thermal_condition(ins[0])      # what Stream.sum starts from
+                else:
+                    recv = None
+            if not is_stream(recv) or (op != 'mix' and not all(is_stream(i) for i in ins)):
+                if creates: objs.append(tmo.Stream(None))
+                continue
             vle, eb = 'v' in flags, 'n' not in flags
             streams = [i for i in ins if is_stream(i) and not i.isempty()]
             Hs = [read(i, 'H') for i in streams]
-            if any(h != h for h in Hs): continue          # an inlet outside the property models: nothing to say
+            if any(h != h for h in Hs):                   # an inlet outside the property models: nothing to say
+                if creates: objs.append(tmo.Stream(None))
+                continue
             Cs = [read(i, 'C') for i in streams]
             Q = qv * sum(c for c in Cs if c == c) if mode == 'dT' else qv
             heat = sum(float(i.heat) for i in ins if i is not None and not is_stream(i))
@@ -360,18 +435,25 @@ def run_ops(ops):
             rec = []; _REC = rec
             vrec = []; _VREC = vrec
             out = 'ok'
+            Fin = sum(float(i.F_mol) for i in streams)
+            Ts0 = streams[0].T if streams else None
             try:
-                recv.mix_from(ins, energy_balance=eb, vle=vle, Q=Q, conserve_phases=cp)
+                if op == 'mix': recv.mix_from(ins, energy_balance=eb, vle=vle, Q=Q, conserve_phases=cp)
+                elif op == 'sum': recv = tmo.Stream.sum(ins)
+                elif op == 'add': recv = ins[0] + ins[1]
+                else: recv += ins[1]
             except BaseException as e:
                 out = 'raised'; tags.add('mix-raised:' + type(e).__name__ + (':' + str(e)[:60] if isinstance(e, ReferenceError) else ''))
             finally:
                 _REC = None; _VREC = None
+            if creates: objs.append(recv)
+            if op != 'mix': tags.add('mix:via:' + op)
             N = len(streams)
             expected = (sum(Hs) + Q + heat) if N else 0.0
             Hread = read(recv, 'H')
             Crecv = read(recv, 'C')
-            tol = (1e-6 * max([abs(expected), abs(Q), abs(heat)] + [abs(h) for h in Hs]) + 1e-12
-                   + 1e-5 * (last_slope(rec) if rec else (Crecv if vle and Crecv == Crecv else 0.0)))
+            tol = (1e-9 * max([abs(expected), abs(Q), abs(heat)] + [abs(h) for h in Hs]) + 1e-12
+                   + ALLOW_K * (last_slope(rec) if rec else (Crecv if vle and Crecv == Crecv else 0.0)))
             if vrec:
                 v = vrec[-1]
                 vres = f'ok:{fbits(v[2])}:{chars(v[3])}' if v[0] == 'ok' else 'ex'
@@ -382,8 +464,8 @@ def run_ops(ops):
             model_in.append(head + f' vres={vres} sol={sol_tokens(rec)}')
             energy_claim = eb and N >= 1               # without the energy balance the property makes no enthalpy claim
             start_ok = all(indom(i.T) for i in streams) if eb else indom(T0r)
-            if vle and any('L' in ph_of(i) or 'S' in ph_of(i) for i in streams):
-                # `stream.vle(...)` works on the rows 'g' and 'l' only: material labelled 'L' (or 'S') is left out of the flash,
+            if vle and any(set(ph_of(i)) & set('LSs') for i in streams):
+                # `stream.vle(...)` works on the rows 'g' and 'l' only: material labelled 'L', 's' or 'S' is left out of the flash,
                 # which then does not reproduce the enthalpy it was asked for.  That is the flash's contract (C04), the
                 # hypothesis VleSound of mix_vle_energy is not met: no verdict here, the step is correspondence-only.
                 start_ok = False
@@ -421,16 +503,26 @@ def run_ops(ops):
                          + (', vle=True' if vle else '') + ')')
                 if recv.P != min(Ps):
                     fail('mix:pressure', f'receiver.P = {recv.P!r}, min P of the non-empty inlets = {min(Ps)!r}')
+                if (N >= 2 and not vle and not (Q or heat) and all(not is_multi(i) for i in streams)
+                        and len({(i.T, i.P, i.phase) for i in streams}) == 1 and ph_of(recv) == streams[0].phase):
+                    # mix_isothermal: one phase, one temperature (and pressure), no heat: the balance determines T = T0
+                    tags.add('mix:isothermal')
+                    if not abs(recv.T - Ts0) <= 1e-6:
+                        fail('mix:isothermal', f'inlets all {streams[0].phase} at T = {Ts0!r}, no heat, but the receiver ends at {recv.T!r}')
+                if not abs(float(recv.F_mol) - Fin) <= 1e-9 * Fin:
+                    # the enthalpy assigned belongs to the inlets' material: the receiver must hold all of it
+                    fail('mix:material', f'receiver holds {float(recv.F_mol)!r} kmol/hr, the non-empty inlets {Fin!r}')
             elif N >= 1 and mode != 'huge' and not vle:
                 # raised although the heat input is moderate: is the target inside the range of the models?
                 if lo == lo and hi == hi and lo <= expected <= hi:
                     fail('mix:raised', f'mix_from raised although Σ inlet.H + Q = {expected!r} lies between Σ H(250 K) = {lo!r} '
                                        f'and Σ H(500 K) = {hi!r} of the inlets\' material')
-        elif op == 'sep':
+        elif op in ('sep', 'isub'):
+            # `sep a b` -> a.separate_out(b);  `isub a b` -> a -= b
             a = objs[int(t[1])]
             b = objs[int(t[2])]
             if not is_stream(a) or not (b is None or is_stream(b)): continue
-            if is_multi(a) or (b is not None and is_multi(b)): continue
+            if op == 'isub' and b is None: continue
             Ha = read(a, 'H'); Hb = read(b, 'H') if b is not None else 0.0
             if Ha != Ha or Hb != Hb: continue
             b_empty = b is not None and b.isempty()
@@ -441,16 +533,19 @@ def run_ops(ops):
             rec = []; _REC = rec
             out = 'ok'
             try:
-                a.separate_out(b)
+                if op == 'sep': a.separate_out(b)
+                else: a -= b
             except BaseException as e:
                 out = 'raised'; tags.add('sep-raised:' + type(e).__name__)
             finally:
                 _REC = None
             expected = Ha if (b is None or b_empty) else (0.0 if a is b else Ha - Hb)
             Hread = read(a, 'H')
-            tol = 1e-6 * max(abs(Ha), abs(Hb)) + 1e-5 * last_slope(rec) + 1e-12
+            tol = 1e-9 * max(abs(Ha), abs(Hb)) + ALLOW_K * last_slope(rec) + 1e-12
             model_in.append(head + f' ea={1 if a.isempty() else 0} kind=H sol={sol_tokens(rec)}')
             outs.append(answer(a, out, Hread, rec, tol, start_ok))
+            if is_multi(a) or (b is not None and is_multi(b)): tags.add('sep:multi-phase')
+            if op == 'isub': tags.add('sep:via:isub')
             tags.add('sep' + (':none' if b is None else ':empty-other' if b_empty else ':same' if a is b else
                               f':{"sameT" if b.T == Ta else "otherT"}:{"samephase" if ph_of(b) == pha else "otherphase"}'))
             if (b is None or b_empty) and (out != 'ok' or rec or a.T != Ta or a.P != Pa or ph_of(a) != pha):
@@ -460,17 +555,49 @@ def run_ops(ops):
             if not start_ok:
                 tags.add('sep:start-out-of-domain')      # a state outside the property's domain: no verdict on this step
             elif out == 'ok':
+                if (b is not None and a is not b and not b_empty and not is_multi(a) and not is_multi(b) and not a.isempty()
+                        and b.T == Ta and b.P == Pa and ph_of(b) == pha and ph_of(a) == pha):
+                    # separate_isothermal: a share in the stream's own phase at its own temperature leaves T where it was
+                    tags.add('sep:isothermal')
+                    if not abs(a.T - Ta) <= 1e-6:
+                        fail('sep:isothermal', f'a share at the same T = {Ta!r}, P and phase was separated out, T moved to {a.T!r}')
                 if not abs(Hread - expected) <= tol:
                     fail('sep:energy', f'after separate_out H = {Hread!r}, H_before − other.H = {expected!r}')
             else:
                 lo, hi = value_at(a, 'H', T_LO), value_at(a, 'H', T_HI)
-                if lo == lo and hi == hi and lo <= expected <= hi and min(a.mol) >= 0:
+                if lo == lo and hi == hi and lo <= expected <= hi and min(a.mol.to_array() if hasattr(a.mol, 'to_array') else a.mol) >= 0:
                     fail('sep:raised', f'separate_out raised although H_before − other.H = {expected!r} lies between '
                                        f'H(250 K) = {lo!r} and H(500 K) = {hi!r} of the remaining material')
+        elif op == 'iter':
+            # one step of the fixed-point maps the temperature solvers iterate (thermosteam/mixture/mixture.py), called
+            # with stub property functions that return the given numbers: `iter <HP|xHP|SP|xSP> <T> <X> <X(T)> <Cn>`
+            kind, T, X, XT, Cn = t[1], float(t[2]), float(t[3]), float(t[4]), float(t[5])
+            import thermosteam.mixture.mixture as mm
+            f = getattr(mm, {'HP': 'iter_T_at_HP', 'xHP': 'xiter_T_at_HP', 'SP': 'iter_T_at_SP', 'xSP': 'xiter_T_at_SP'}[kind])
+            try:
+                if kind[0] == 'x': nxt = f(T, X, lambda pm, T_, P_: XT, (), 101325., lambda pm, T_, P_=None: Cn, [0, None])
+                else: nxt = f(T, X, lambda ph, m, T_, P_: XT, 'l', None, 101325., lambda ph, m, T_, P_=None: Cn, [0, None])
+                ans = f'next={fbits(float(nxt))}'
+            except BaseException as e:
+                nxt = None; ans = 'next=raised'
+            model_in.append(f'iter kind={kind} T={fbits(T)} X={fbits(X)} XT={fbits(XT)} Cn={fbits(Cn)}')
+            outs.append(ans)
+            tags.add('iter:' + kind + (':solution' if X == XT else ''))
+            # the property behind the solvers: a temperature is a fixed point of the map exactly when it solves X(T) = X
+            # (newton_fixed_point_iff / entropy_step_fixed_point_iff); the step moves towards the solution
+            if nxt is not None:
+                if X == XT and nxt != T:
+                    fail('iter:solution-not-fixed', f'{kind}: X(T) = X = {X!r} but the step moves T from {T!r} to {nxt!r}')
+                want_up = (X > XT) == (Cn > 0)
+                if X != XT and not (nxt > T if want_up else nxt < T):
+                    fail('iter:fixed-point-not-solution', f'{kind}: X = {X!r}, X(T) = {XT!r}, Cn = {Cn!r}: the step goes from '
+                                                          f'{T!r} to {nxt!r} (it must move towards the solution)')
         elif op == 'set':
             s = objs[int(t[1])]
             kind, mode, th = t[2], t[3], float(t[4])
             if not is_stream(s): continue
+            via_Hnet = kind == 'Hnet'          # `stream.Hnet = v` is `stream.H = v - stream.Hf`
+            if via_Hnet: kind = 'H'
             empty = s.isempty()
             if empty and kind == 'h': continue
             reachable = False
@@ -495,8 +622,13 @@ def run_ops(ops):
             head = f'set r={st_of(s)} x={fbits(x)}'
             rec = []; _REC = rec
             out = 'ok'
+            if via_Hnet:
+                Hf = float(s.Hf); v = x + Hf; x = v - Hf          # the value the setter hands on
+                head = f'set r={st_of(s)} x={fbits(x)}'
+                tags.add('set:via:Hnet')
             try:
-                setattr(s, kind, x)
+                if via_Hnet: s.Hnet = v
+                else: setattr(s, kind, x)
             except BaseException as e:
                 out = 'raised'; tags.add(f'set-raised:{kind}:' + type(e).__name__)
             finally:
@@ -505,7 +637,7 @@ def run_ops(ops):
             tk = 'Sg' if kind == 'S' and ph0 == 'g' and ph_of(s) == 'g' else kind      # tolerance class
             left_dom = out == 'ok' and bool(rec) and not indom(s.T)     # the assignment "succeeded" at an unphysical temperature
             start_ok = indom(T0)                                         # else: a state an earlier step left outside the domain
-            tol = RTOL[tk] * abs(x) + (1e-5 * last_slope(rec) if not left_dom else 0.0) + 1e-12
+            tol = RTOL[tk] * abs(x) + (ALLOW_K * last_slope(rec) if not left_dom else 0.0) + 1e-12
             model_in.append(head + f' kind={tk} sol={sol_tokens(rec)}')
             in_q = mode in ('lerp', 'cur', 'cross') or (mode == 'zero' and reachable)      # inside the property's quantifier
             outs.append(answer(s, out, back, rec, tol, in_q and start_ok))
@@ -520,6 +652,8 @@ def run_ops(ops):
             if not start_ok:
                 tags.add('set:start-out-of-domain'); continue  # the stream was outside the property's domain already
             readback_ok = abs(back - x) <= tol
+            if via_Hnet and out == 'ok' and not abs(float(s.Hnet) - v) <= tol + 1e-12 * abs(Hf):
+                fail('set:readback:Hnet', f'assigned Hnet = {v!r}, read back {float(s.Hnet)!r}')
             if out == 'ok' and (not readback_ok or (left_dom and mode in ('lerp', 'cur', 'zero'))):
                 # The value read back differs, or a target between the stream's values at 250 K and 500 K was "reached" at a
                 # temperature outside [150, 1500] K.  Where the real property function is not strictly increasing at the
@@ -529,8 +663,10 @@ def run_ops(ops):
                 # raised or returned a temperature that does not reproduce the target it was given) or the value read back
                 # to be right (a consistent answer at an unphysical temperature after the phase flip); a setter that
                 # misuses sound solver answers is not excused.
+                _TSTAR[0] = None
                 mono = micro_monotone(s, kind, x, None if is_multi(s) else ph0) if kind == 'S' else None
-                excused = mono is False and (readback_ok or last_call_unsound(rec, RTOL[tk]))
+                excused = (mono is False and (readback_ok or last_call_unsound(rec, RTOL[tk]))
+                           and noise_is_cause(s, T0, ph0, _TSTAR[0]) is True)
                 sig = ('set:raised:S:model-not-monotone' if excused else
                        f'set:readback:{kind}' if not readback_ok else f'set:left-domain:{kind}')
                 fail(sig, f'assigned {kind} = {x!r} to a {ph0} stream, read back {back!r} '
@@ -556,6 +692,8 @@ def run_ops(ops):
                 # away from the solution with a heat capacity that varies by a factor 2 on the way, overshoots below the
                 # range of the property models, which raise
                 far = mono is True and _TSTAR[0] is not None and abs(_TSTAR[0] - T0) > 120.0
+                if mono is False and kind == 'S' and noise_is_cause(s, T0, ph0, _TSTAR[0]) is not True:
+                    mono = None          # the library's solver fails on the smoothed entropy as well: not the known defect
                 fail('set:raised:far-start' if far else f'set:raised:{kind}' + (':model-not-monotone' if mono is False else ''),
                      f'assigning {kind} = {x!r} (between the values at 250 K and 500 K) to a {ph0} stream '
                      f'at T = {T0!r} raised' + (' (the property function is not strictly increasing at the 2e-6 K scale '
@@ -629,7 +767,7 @@ def gen_flows(rng, empty=False, trace=False):
     """flows in kmol/hr; `trace`: a non-empty stream of about 1e-9..1e-8 kmol/hr in all (heat-capacity flow below
     1e-6 kJ/hr/K): still inside the property's quantifier"""
     if empty: return ','.join(['0'] * len(CHEMS))
-    scale = rng.choice([1e-10, 3e-10, 1e-9]) if trace else 1.0
+    scale = rng.choice([1e-10, 3e-10, 1e-9]) if trace else (rng.choice([1e3, 1e5]) if rng.random() < 0.03 else 1.0)
     fl = [0.0 if rng.random() < 0.45 else float(f'{rng.uniform(0.1, 50) * scale:.4g}') for _ in CHEMS]
     if not any(fl): fl[rng.randrange(len(CHEMS))] = float(f'{rng.uniform(0.1, 50) * scale:.4g}')
     return ','.join(repr(x) for x in fl)
@@ -639,8 +777,19 @@ def gen_T(rng): return r6(rng.uniform(T_LO, T_HI))
 def gen_P(rng): return r6(10 ** rng.uniform(4, 7)) if rng.random() < 0.8 else '101325.0'
 
 
+def ops_kind(ops, index):
+    """the op that created object number `index`"""
+    k = -1
+    for o in ops:
+        w = o.split(' ')[0]
+        if w in ('S', 'M', 'MP', 'Q', 'W', 'N', 'sub', 'sum', 'add'):
+            k += 1
+            if k == index: return w
+    return None
+
+
 def nobj(ops):
-    return sum(1 for o in ops if o.split(' ')[0] in ('S', 'M', 'MP', 'Q', 'W', 'N', 'sub'))
+    return sum(1 for o in ops if o.split(' ')[0] in ('S', 'M', 'MP', 'Q', 'W', 'N', 'sub', 'sum', 'add'))
 
 
 def gen_stream(rng, ops, empty=None, trace=False):
@@ -717,13 +866,26 @@ def gen_history(rng):
     return Case(ops, {'history': True})
 
 
+def gen_iter(rng):
+    """one step of a solver map at random data; a quarter at a solution (X(T) = X), Cn from 1e-9 (trace streams) to 1e5"""
+    kind = rng.choice(['HP', 'xHP', 'SP', 'xSP'])
+    T = float(r6(rng.uniform(200, 600)))
+    Cn = float(r6(10 ** rng.uniform(-9, 5)))
+    XT = float(r6(rng.uniform(-1, 1) * Cn * 300))
+    if rng.random() < 0.25: X = XT
+    else:
+        dT = rng.choice([-1, 1]) * 10 ** rng.uniform(-2, 1.5)         # the step asked for, in K (HP) or as ln-ratio * T (SP)
+        X = XT + (Cn * dT if kind in ('HP', 'xHP') else Cn * dT / T)
+    return f'iter {kind} {T!r} {X!r} {XT!r} {Cn!r}'
+
+
 def add_obj(ops, line):
     ops.append(line)
     return nobj(ops) - 1
 
 
 def gen_set(rng, ops, target):
-    kind = rng.choice(['H', 'H', 'h', 'S', 'S'])
+    kind = rng.choice(['H', 'H', 'h', 'S', 'S', 'S', 'Hnet'])
     r = rng.random()
     if r < 0.55: ops.append(f'set {target} {kind} lerp {r6(rng.random())}')
     elif r < 0.80: ops.append(f'set {target} {kind} cur 0')
@@ -736,6 +898,15 @@ def gen_case(rng):
     ops = []
     n = rng.choice([1, 1, 2, 2, 2, 3, 3, 4, 5])
     trace = rng.random() < 0.07               # every stream of the case carries a trace flow
+    if rng.random() < 0.05:
+        # one phase, one temperature, one pressure: the balance alone says the mixture stays at that temperature
+        ph, T, P = rng.choice('lgL'), gen_T(rng), gen_P(rng)
+        n = max(n, 2)
+        ins = [add_obj(ops, f'S {ph} {T} {P} {gen_flows(rng, False, trace)}') for _ in range(n)]
+        recv = add_obj(ops, f'S {rng.choice("lg")} 298.15 101325.0 {gen_flows(rng, True)}')
+        ops.append(f'mix {recv} {",".join(map(str, ins))} abs 0.0 0')
+        if rng.random() < 0.5: gen_set(rng, ops, recv)
+        return Case(ops, {})
     ins = [gen_stream(rng, ops, trace=trace) for _ in range(n)]
     if all(all(float(x) == 0 for x in re.split('[,|]', o.split(' ')[-1])) for o in ops):
         ins.append(gen_stream(rng, ops, empty=False, trace=trace))       # "non-empty inlet sets"
@@ -759,6 +930,16 @@ def gen_case(rng):
     else: mode, q = 'huge', r6(rng.choice([1e9, -1e9, -3e7, 1e8]))
     cp = '1' if rng.random() < (0.10 if not any(ops[i].startswith('S L') for i in range(len(ops))) else 0.5) else '0'
     ops.append(f'mix {recv} {",".join(map(str, ins))} {mode} {q} {cp} {gen_flags(rng)}'.rstrip())
+    # the same energy path through the other public entry points: Stream.sum, +, +=, -=
+    only_streams = [i for i in streams if ops_kind(ops, i) in ('S', 'M', 'MP')]
+    r = rng.random()
+    if r < 0.10 and only_streams:
+        add_obj(ops, f'sum {",".join(map(str, rng.sample(only_streams, min(len(only_streams), rng.choice([1, 2, 3])))))}')
+    elif r < 0.16 and len(only_streams) >= 2:
+        a, b = rng.sample(only_streams, 2); add_obj(ops, f'add {a} {b}')
+    elif r < 0.22 and only_streams:
+        ops.append(f'iadd {recv} {rng.choice(only_streams)}')
+    if rng.random() < 0.5: ops.append(gen_iter(rng))
     # assignments and separations afterwards
     cand = streams + [recv]
     for _ in range(rng.choice([0, 1, 1, 2, 3])):
@@ -777,6 +958,8 @@ def gen_case(rng):
                 dT = '0.0' if same_T else r6(rng.uniform(-25, 25))
                 Pf = r6(rng.choice([0.5, 2.0])) if rng.random() < 0.15 else '1.0'
                 b = add_obj(ops, f'sub {a} {fr} {dT} {"other" if other_ph else "same"} {Pf}')
+                if rng.random() < 0.2:
+                    ops.append(f'isub {a} {b}'); continue
                 ops.append(f'sep {a} {b}')
             elif r2 < 0.86:
                 ops.append(f'sep {a} {a}')
